@@ -343,10 +343,16 @@ impl Walrus {
                 // read from our file; alignment is ensured by `AlignedVec`.
                 // SAFETY: `aligned` is built from bounded bytes inside the block,
                 // copied into `AlignedVec` ensuring alignment for rkyv.
+                // A unit whose first header does not decode, or whose first entry does not
+                // verify (the process died while writing it, or it was damaged), holds nothing
+                // to recover - but it is not the end of the file's data: a writer that was
+                // handed this unit earlier may write its first entry after other topics have
+                // filled later units. Skip the unit, keep scanning.
                 let md: Metadata = match crate::wal::block::checked_metadata(&aligned[..]).ok_or(()) {
                     Ok(m) => m,
                     Err(_) => {
-                        break;
+                        block_offset += DEFAULT_BLOCK_SIZE;
+                        continue;
                     }
                 };
                 let col_name = md.owned_by;
@@ -394,7 +400,8 @@ impl Walrus {
                     }
                 }
                 if used == 0 {
-                    break;
+                    block_offset += DEFAULT_BLOCK_SIZE;
+                    continue;
                 }
 
                 let block = Block {
